@@ -24,6 +24,9 @@ REPO = os.environ.get("VERIF_REPO", "/repo")
 LEAN = os.path.join(VERIF, "lean")
 HARNESS = os.path.join(VERIF, "harness")
 WORK = os.path.join(VERIF, ".work")
+# evidence/ and replays/ of a run against a scratch worktree (VERIF_REPO) are kept apart from the
+# registered ones, which must come from /repo itself
+OUT_ROOT = VERIF if os.path.realpath(REPO) == "/repo" else os.path.join(WORK, "scratch-" + os.path.basename(os.path.realpath(REPO)))
 ALLOWED_AXIOMS = {"propext", "Classical.choice", "Quot.sound"}
 FORBIDDEN_RE = re.compile(
     r"\bsorry\b|\badmit\b|^\s*axiom\s|native_decide|bv_decide|implemented_by|\bunsafe\s|maxHeartbeats\s+0\b"
@@ -408,7 +411,7 @@ class Check:
         for v in self.violations:
             if v[0] == sig:
                 return "dup"
-        d = os.path.join(VERIF, "replays", self.prop)
+        d = os.path.join(OUT_ROOT, "replays", self.prop)
         os.makedirs(d, exist_ok=True)
         path = os.path.join(d, slug(sig) + ".json")
         with open(path, "w") as f:
@@ -448,8 +451,8 @@ class Check:
             "coverage": cov, "assumptions": self.assumptions, "wall_s": round(wall, 2),
             "violations": len(self.violations),
         }
-        os.makedirs(os.path.join(VERIF, "evidence"), exist_ok=True)
-        with open(os.path.join(VERIF, "evidence", self.prop + ".json"), "w") as f:
+        os.makedirs(os.path.join(OUT_ROOT, "evidence"), exist_ok=True)
+        with open(os.path.join(OUT_ROOT, "evidence", self.prop + ".json"), "w") as f:
             json.dump(ev, f, indent=1, default=str)
         for sig, what in sorted(self.known_seen.items()):
             print("KNOWN-FINDING: property=%s %s: %s" % (self.prop, sig, what))
